@@ -666,7 +666,6 @@ Section Top.
   Hypothesis Hfn : NoDup (map f_name (s_fields Sc)).
   Hypothesis Hset : wf_set Sc (s_header Sc ++ M) = true.
 
-  Let HM := s_header Sc ++ M.
 
   Lemma set_nodup : NoDup (map mtag (s_header Sc ++ M)).
   Proof. unfold wf_set in Hset. apply andb_true_iff in Hset. apply nodupb_NoDup. apply Hset. Qed.
